@@ -1182,6 +1182,16 @@ func (env *SpecEnv) evalCall(c *ast.CallExpr) TV {
 				tool("spec: as(x, T)")
 			}
 			return TV{ex.unbox(env.st, iv, t), t}
+		case "iface":
+			// iface(tag, val, I): the interface value of type I with the given dynamic type tag and value
+			// (the inverse of tagof / valof; used to state invariants over tables that store the two halves)
+			tg := env.eval(c.Args[0]).V.(Scalar).T
+			vl := env.eval(c.Args[1]).V.(Scalar).T
+			t := env.resolveType(c.Args[2])
+			if t == nil {
+				tool("spec: iface(tag, val, I)")
+			}
+			return TV{IfaceV{tg, vl}, t}
 		case "substr":
 			sv := env.eval(c.Args[0]).V.(Scalar).T
 			lo := env.eval(c.Args[1]).V.(Scalar).T
